@@ -2,7 +2,7 @@
 From Coq Require Extraction.
 From Coq Require Import ExtrOcamlBasic.
 From SQ Require Import lib.Base.
-From SQ Require model.Sync model.IdleTimer.
+From SQ Require model.Sync model.IdleTimer model.RxWake.
 Extraction Language OCaml.
 
 Definition ivs_run := Sync.ivs_run.
@@ -13,4 +13,6 @@ Definition psync_run := Sync.psy_run.
 Definition psync_judge := Sync.psy_judge.
 Definition idle_run := IdleTimer.run.
 Definition idle_judge := IdleTimer.judge.
-Extraction "../ocaml/gen/C02/model.ml" ivs_run ivs_judge osync_run osync_judge psync_run psync_judge idle_run idle_judge.
+Definition rxwake_run := RxWake.run.
+Definition rxwake_judge := RxWake.judge.
+Extraction "../ocaml/gen/C02/model.ml" ivs_run ivs_judge osync_run osync_judge psync_run psync_judge idle_run idle_judge rxwake_run rxwake_judge.
